@@ -231,6 +231,23 @@ func (w *world) upsert(name string, weight int) {
 	w.afterMembership("upsert")
 }
 
+// refuse makes a registration the library must turn down (invalid weight), for a new or an existing
+// server: the call fails and nothing about the pool or its weights changes.
+func (w *world) refuse(name string) {
+	u, _ := url.Parse(name)
+	before := fmt.Sprint(w.rb.Servers(), w.weights())
+	if w.find(name) < 0 {
+		w.pending = &meter{rating: 0, ready: true}
+	}
+	if err := w.rb.UpsertServer(u, roundrobin.Weight(-1)); err == nil {
+		w.t.Fatalf("upsert(%s) with weight -1 succeeded\n%s", name, strings.Join(w.log, "\n"))
+	}
+	w.logf("refused upsert(%s,-1)", name)
+	if after := fmt.Sprint(w.rb.Servers(), w.weights()); after != before {
+		w.t.Fatalf("a refused registration of %s changed the pool from %s to %s\n%s", name, before, after, strings.Join(w.log, "\n"))
+	}
+}
+
 func (w *world) remove(name string) {
 	i := w.find(name)
 	u, _ := url.Parse(name)
@@ -420,7 +437,12 @@ func TestC10_ScriptedRatings(t *testing.T) {
 				if rapid.IntRange(0, 9).Draw(t, "zero") == 0 && w.find(names[0]) >= 0 {
 					wt = 0
 				}
-				w.upsert(rapid.SampledFrom(names).Draw(t, "who"), wt)
+				who := rapid.SampledFrom(names).Draw(t, "who")
+				if rapid.IntRange(0, 3).Draw(t, "refused") == 0 {
+					w.refuse(who)
+					break
+				}
+				w.upsert(who, wt)
 			case 1:
 				if len(w.servers) > 2 || (len(w.servers) == 2 && rapid.IntRange(0, 2).Draw(t, "downToOne") == 0) { // the pool may shrink to a single server
 					w.remove(w.servers[rapid.IntRange(0, len(w.servers)-1).Draw(t, "rm")].url.String())
